@@ -199,6 +199,11 @@ def finish(pid, tier, seed, mod, results, problems, wall, replay_path):
     os.makedirs(os.path.join(HERE, "evidence"), exist_ok=True)
     replay_files = {}
     n = 0
+    if not replay_path:
+        import glob
+
+        for old in glob.glob(os.path.join(HERE, "replays", "%s-%d-*.json" % (pid, seed))):
+            os.remove(old)
     for v in m["violations"]:
         mech = v["mechanism"]
         if mech in replay_files:
